@@ -195,6 +195,13 @@ func scDelegate(r *Run) {
 		}
 		g.start = time.Now().Add([]time.Duration{-time.Hour, 0, 20 * time.Second, 90 * time.Second, time.Hour}[r.Intn(key, 5)])
 		g.exp = g.start.Add([]time.Duration{30 * time.Second, 5 * time.Minute, 2 * time.Hour}[r.Intn(key, 3)])
+		if r.Intn("far", 8) == 0 {
+			// a grant for the far future (legal on the wire: 64-bit seconds): it is not in force today, however the
+			// instants are represented internally
+			g.start = []time.Time{time.Date(2262, 4, 12, 0, 0, 0, 0, time.UTC), time.Date(2300, 1, 1, 0, 0, 0, 0, time.UTC), time.Date(2554, 7, 22, 0, 0, 0, 0, time.UTC), time.Date(9999, 12, 31, 0, 0, 0, 0, time.UTC)}[r.Intn("far", 4)]
+			g.exp = []time.Time{g.start.Add(time.Hour), g.start.AddDate(400, 0, 0), time.Now().Add(10 * time.Minute)}[r.Intn("far", 3)]
+			r.CountFault("grant-for-the-far-future", 1)
+		}
 		k := g.key
 		in := &authgrants.Intent{GrantType: g.typ, StartTime: g.start, ExpTime: g.exp, TargetUsername: g.user,
 			DelegateCert: *SelfSigned(k, certs.RawStringName("delegate"))}
